@@ -252,10 +252,11 @@ def mutLegacyCreate (st : Store) (dst : Name) (v : Src) : Store × Option Err :=
     | some err => (st, some err)
     | none => ({ st with entries := putEntry st.entries e' }, none)
 
-/-- `configIntentionGetTxn`: the legacy-id index is not unique; among the entries holding a source with
-    this id the first in primary-key (name) order is returned -/
+/-- `configIntentionGetTxn`: the entry holding a source with this legacy id. Legacy ids are unique across
+    the store — the RPC layer draws them with `lib.GenerateUUID(checkIntentionID)` and memdb's
+    `intention-legacy-id` index is declared unique — so "the first such entry" is "the" entry. -/
 def findByLegacyId (es : List Entry) (id : Name) : Option Entry :=
-  (isort (fun a b => bLt (lc a.name) (lc b.name)) (es.filter fun e => e.sources.any (·.lid = id))).head?
+  es.find? fun e => e.sources.any (·.lid = id)
 
 /-- `UpdateSourceByLegacyID`: replaces the first source with that legacy id -/
 def updateSourceByLid (id : Name) (v : Src) : List Src → Option (List Src)
